@@ -666,7 +666,7 @@ func crashFrames() string {
 	var out []string
 	for _, l := range strings.Split(string(debug.Stack()), "\n") {
 		if strings.HasPrefix(l, "main.") && !strings.HasPrefix(l, "main.crashFrames") && !strings.Contains(l, "runPath.func") {
-			if i := strings.IndexByte(l, '('); i > 0 {
+			if i := strings.LastIndexByte(l, '('); i > 0 {
 				l = l[:i]
 			}
 			out = append(out, l)
